@@ -79,6 +79,10 @@ func (dist *GeometricDistribution) LogPdf(r Scalar, x ConstScalar) error {
     return fmt.Errorf("value `%f' is not an integer", v)
   }
 
+  if x.GetFloat64() < 0.0 {
+    r.SetFloat64(math.Inf(-1))
+    return nil
+  }
   if x.GetFloat64() == 0.0 {
     // avoid 0*log(0) for p = 1
     r.Set(dist.p1)
